@@ -223,9 +223,11 @@ func sweepQualWhitelist(prog *Program) Sweep {
 			switch {
 			case strings.HasSuffix(txt, ".Pkg().Path()"):
 				ok = true
-			case txt == "def.Package" || txt == "m.Package" || txt == "definition.Package":
+			case isDefinitionPackage(info, arg):
+				// the Package field of a method.Definition (whatever the variable is called)
 				ok = true
-			case txt == "pkg" && fi.Key == "builder.ErrorPath.WrapErrorsUsing":
+			case fi.Key == "builder.ErrorPath.WrapErrorsUsing" && isParamIdent(info, fi, arg, 0):
+				// the package parameter of WrapErrorsUsing (the configured wrapErrorsUsing package)
 				ok = true
 			}
 		}
@@ -591,4 +593,27 @@ func sweepUnorderedConsumers(prog *Program) Sweep {
 
 func init() {
 	sweepTable["C09"] = append(sweepTable["C09"], sweepUnorderedConsumers)
+}
+
+// isDefinitionPackage: e is a selector `x.Package` whose field is method.Definition.Package
+func isDefinitionPackage(info *types.Info, e ast.Expr) bool {
+	sel, ok := e.(*ast.SelectorExpr)
+	if !ok || sel.Sel.Name != "Package" {
+		return false
+	}
+	v, ok := info.Uses[sel.Sel].(*types.Var)
+	if !ok || !v.IsField() || v.Pkg() == nil {
+		return false
+	}
+	return v.Pkg().Path() == modPath+"/method"
+}
+
+// isParamIdent: e is the identifier of the idx-th parameter of fi
+func isParamIdent(info *types.Info, fi *FuncInfo, e ast.Expr, idx int) bool {
+	id, ok := e.(*ast.Ident)
+	if !ok || fi.Obj == nil {
+		return false
+	}
+	sig := fi.Obj.Type().(*types.Signature)
+	return idx < sig.Params().Len() && info.Uses[id] == sig.Params().At(idx)
 }
